@@ -173,6 +173,7 @@ class ReqPathRun(object):
                     pass
             extra['conviction_policy_factory'] = NeverConvict
             w.sim.probe('never_convict_policy')
+        w.sim.stalls_armed = False         # thread-stall faults begin once the session is connected
         try:
             cluster = w.make_cluster(contact=tuple(plan.get('contact', (0,))), protocol_version=plan.get('version', 4),
                                      profile=self.profile, executor_threads=ex.get('executor_threads', 2),
@@ -200,6 +201,7 @@ class ReqPathRun(object):
                 nd.use_delay = plan['use_delay']
         w.session = session
         sim = w.sim
+        sim.stalls_armed = True
         self.st['started'] = True
         self.st['t_connected'] = sim.vnow()
         for f in plan.get('faults', []):
